@@ -261,8 +261,10 @@ class AOptRef(Arg):
         super().__init__(i)
         self.t = t
 
+    path = ""   # how the user spells the type: bare, or through its module path
+
     def ty(self, lt):
-        return f"Option<&{lt}{self.t}>"
+        return f"{self.path}Option<&{lt}{self.t}>"
 
     def setup(self):
         return f"let {self.n}w: Option<{self.t}> = Val::gen(&mut g); let {self.n}r = {self.n}w.clone();"
@@ -290,8 +292,10 @@ class AOpt(Arg):
         super().__init__(i)
         self.t = t
 
+    path = ""
+
     def ty(self, lt):
-        return f"Option<{self.t}>"
+        return f"{self.path}Option<{self.t}>"
 
     def setup(self):
         return f"let {self.n}: Option<{self.t}> = Val::gen(&mut g);"
@@ -313,8 +317,10 @@ class ARes(Arg):
         super().__init__(i)
         self.a, self.b = a, b
 
+    path = ""
+
     def ty(self, lt):
-        return f"Result<{self.a}, {self.b}>"
+        return f"{self.path}Result<{self.a}, {self.b}>"
 
     def setup(self):
         return f"let {self.n}: Result<{self.a}, {self.b}> = Val::gen(&mut g);"
@@ -618,8 +624,10 @@ class RMutBorrow(Ret):
 class ROptRef(Ret):
     borrowed = True
 
+    path = ""
+
     def ty(self, lt):
-        return f" -> Option<&{lt}u64>"
+        return f" -> {self.path}Option<&{lt}u64>"
 
     def impl_expr(self):
         return "this.core.lend_opt_one(h)"
@@ -638,8 +646,10 @@ class ROpt(Ret):
     def __init__(self, t):
         self.t = t
 
+    path = ""
+
     def ty(self, lt):
-        return f" -> Option<{self.t}>"
+        return f" -> {self.path}Option<{self.t}>"
 
     def impl_expr(self):
         return f"gen::<Option<{self.t}>>(h)"
@@ -655,8 +665,10 @@ class RRes(Ret):
     def __init__(self, a, b):
         self.a, self.b = a, b
 
+    path = ""
+
     def ty(self, lt):
-        return f" -> Result<{self.a}, {self.b}>"
+        return f" -> {self.path}Result<{self.a}, {self.b}>"
 
     def impl_expr(self):
         return f"gen::<Result<{self.a}, {self.b}>>(h)"
@@ -668,6 +680,7 @@ class RRes(Ret):
 class RIntRes(Ret):
     wrapped = True
     int_result = True
+    path = ""
 
     def __init__(self, t, e, alias=False):
         self.t, self.e = t, e  # e in io, unit, UErr
@@ -680,7 +693,7 @@ class RIntRes(Ret):
     def ty(self, lt):
         if self.alias:
             return f" -> {self.alias}<{self.t}>"
-        return f" -> Result<{self.t}, {self.ety()}>"
+        return f" -> {self.path}Result<{self.t}, {self.ety()}>"
 
     def impl_expr(self):
         if self.e == "io":
@@ -1104,6 +1117,13 @@ def gen_trait(rng, name, prefix, max_methods=5, allow_child=True, tindex=0):
         pm = Method(j, f"{prefix}_{j}", "ref", [AVal(0, "u32")], RRes("u64", "LErr"))
         pm.gid = tindex * 100 + j
         methods.append(pm)
+    # the user may spell Option / Result through their module paths
+    for m in methods:
+        for x in list(m.args) + [m.ret]:
+            if isinstance(x, (AOpt, AOptRef, ROpt, ROptRef)) and rng.random() < 0.3:
+                x.path = rng.choice(["core::option::", "::std::option::", "std::option::"])
+            elif isinstance(x, (ARes, RRes, RIntRes)) and rng.random() < 0.3:
+                x.path = rng.choice(["core::result::", "::std::result::", "std::result::"])
     t = Trait(name, methods, int_result)
     if supers and any(getattr(m.ret, "borrowed", False) and getattr(m.ret, "wrapped", False) for m in methods):
         # the wrapper keeps borrowed wrapped returns in a Cell inside the container, which is never
